@@ -61,7 +61,15 @@ func directedHistory(c *Ctx) *histBuilder {
 	hb := newHistBuilder()
 	hb.add(Step{Op: "new", H: 0, Name: "root"})
 	callers := []string{pick(c, callerBodies), pick(c, callerBodies), pick(c, callerBodies)}
-	text := "root{{define \"cell\"}}" + pick(c, cellBodies) + "{{end}}"
+	cell := pick(c, cellBodies)
+	cloneStatic := c.rng.Intn(7) == 0
+	if cloneStatic {
+		// a helper of static text that the escaper rewrites in place ('<' → &lt;, comments stripped), called at top level,
+		// inside a script element and inside an attribute; executed through a set and its clones in every order
+		cell = pick(c, []string{"x<y", "if (a < b) { f(); }", "<!-- note -->literal", "a <!-- c --> b < c"})
+		callers = []string{"{{template \"cell\" .}}", "<script>{{template \"cell\" .}}</script>", pick(c, []string{"<p title=\"{{template \"cell\" .}}\">x</p>", "<textarea>{{template \"cell\" .}}</textarea>", "<b>{{template \"cell\" .}}</b>"})}
+	}
+	text := "root{{define \"cell\"}}" + cell + "{{end}}"
 	for i, b := range callers {
 		text += fmt.Sprintf("{{define \"c%d\"}}%s{{end}}", i, b)
 	}
@@ -77,7 +85,7 @@ func directedHistory(c *Ctx) *histBuilder {
 	}
 	data := c.randData()
 	useClone := c.rng.Intn(3) == 0
-	if !strings.Contains(text[:strings.Index(text, "{{define \"c0\"}}")], "{{.") && c.rng.Intn(2) == 0 {
+	if cloneStatic || !strings.Contains(text[:strings.Index(text, "{{define \"c0\"}}")], "{{.") && c.rng.Intn(2) == 0 {
 		// a helper of static text only: clones must still get their own copy of its tree
 		useClone = true
 	}
@@ -85,8 +93,18 @@ func directedHistory(c *Ctx) *histBuilder {
 		hb.add(Step{Op: "clone", H: 0, H2: 1})
 	}
 	n := 2 + c.rng.Intn(4)
+	if cloneStatic {
+		if c.rng.Intn(2) == 0 {
+			hb.add(Step{Op: "clone", H: 1, H2: 2}) // clone of the clone
+		}
+		n = 3 + c.rng.Intn(4)
+	}
 	for i := 0; i < n && !hb.dead; i++ {
 		h := 0
+		if cloneStatic && hb.bound(2) && c.rng.Intn(3) == 0 {
+			hb.add(Step{Op: "exect", H: 2, Name: pick(c, names), Data: data})
+			continue
+		}
 		if useClone && hb.bound(1) && c.rng.Intn(2) == 0 {
 			h = 1
 		}
